@@ -17,13 +17,14 @@ def _f(x):
     return x
 
 
-def _graph(branch, n, D, labels=None):
+def _graph(branch, n, D, labels=None, idx=None):
     from opfython.subgraphs.knn import KNNSubgraph
+    ids = idx if idx else list(range(n))
     if branch == "pre":
         X = np.zeros((n, 1))
-        I = np.arange(n)
+        I = np.array(ids, dtype=int)
     else:
-        X = np.array([[float(i)] for i in range(n)])
+        X = np.array([[float(i)] for i in ids])
         I = None
     Y = np.array(labels, dtype=int) if labels is not None else None
     g = KNNSubgraph(X, Y, I)
@@ -72,11 +73,13 @@ def run_arcs(req):
     cfg = req["cfg"]
     n, k, branch = cfg["n"], cfg["k"], cfg["branch"]
     D = req["D"]
-    g, args = _graph(branch, n, D)
+    rows = cfg.get("idx") or list(range(n))
+    g, args = _graph(branch, n, D, idx=cfg.get("idx"))
     if cfg.get("k1") is not None:
         g.create_arcs(cfg["k1"], *args)
         g.destroy_arcs()
     maxd = g.create_arcs(k, *args)
+    D = [[D[rows[i]][rows[j]] for j in range(n)] for i in range(n)]
     obs = dict(adj=[[int(a) for a in nd.adjacency] for nd in g.nodes], radius=[_f(nd.radius) for nd in g.nodes],
                density=_f(g.density), maxd=[_f(x) for x in maxd])
     return dict(obs=obs, violated=judge_arcs(g, D, k, maxd, n))
@@ -484,6 +487,10 @@ def run_e2e(req):
             p = pred[i]
             if model == "uns" and i not in [int(a) for a in nodes[p].adjacency[:nodes[p].n_plateaus + k]]:
                 bad.append("sample-was-neighbour-of-its-predecessor[%d]" % i)
+            if model == "knn":
+                near = lambda a, b: sum(1 for j in range(n) if j not in (a, b) and D[a][j] < D[a][b]) <= k - 1
+                if not (near(p, i) or (near(i, p) and dens[i] == dens[p])):
+                    bad.append("sample-was-neighbour-of-its-predecessor[%d]" % i)
             if nodes[i].cost != min(nodes[p].cost, dens[i]):
                 bad.append("cost-is-min(cost(pred),density)[%d]" % i)
             if not nodes[i].cost > dens[i] - 1:
